@@ -14,7 +14,8 @@ MAC = ['F', 'G', 'H', 'OBJ', 'P', 'Q', 'V']
 PLAIN = ['1', '2', '+', '-', '*', '"s"', 'a', 'b', 'x', '.5', 'e', '<', '>>', '=', '( a )', '( 1 , b )', "'c'", '3u', '->', '&&', '0x1f', 'L"w"', '...', '[', ']']
 PASTE_ARGS = ['r', 's1', 'x', 'k9', 'OBJ', 'F', '_', 'G']
 # literals with escapes, and a backslash outside any literal: 6.10.3.2p2 escapes \\ and " only inside literals
-ESC = ['"a\\n"', "'\\\\'", '"\\\\"', "'\\''", '"q\\"r"', "'\\n'", 'L"w\\t"', 'u8"\\\\"', '\\n', '\\ x']
+ESC = ['"a\\n"', "'\\\\'", '"\\\\"', "'\\''", '"q\\"r"', "'\\n'", 'L"w\\t"', 'u8"\\\\"', '\\n', '\\ 1']      # the token after a bare backslash is never a parameter name: an empty argument there would leave the
+                                                                                                             # backslash last in a # operand, which is not a valid string literal (6.10.3.2p2: undefined)
 
 
 class M:
@@ -279,6 +280,34 @@ class Gen:
                 if nb != body:
                     self.excl['D76'] = self.excl.get('D76', 0) + 1
                     self.lines[i] = head + nb
+        # D76, second shape: a replacement list that ends with the name of a function-like macro, used where the next token is not '('.
+        # Whether an enclosing macro is still "being replaced" when the following tokens are rescanned is where hide sets and the
+        # context stack of gcc/clang differ (the peek for '(' pops the finished contexts).  A '+' is appended to such a list unless
+        # every occurrence of the macro's name in the program is followed by '(' (the f(2)(9) pattern of 6.10.3.5 stays in).
+        if fn:
+            for i, l in enumerate(self.lines):
+                m = re.match(r'#define (\w+)(\([^)]*\))?(.*)$', l)
+                if not m:
+                    continue
+                body = m.group(3).rstrip()
+                mm = re.search(r'(\w+)$', body)
+                if not mm or mm.group(1) not in fn:
+                    continue
+                name = m.group(1)
+                uses_ok = True
+                for j, l2 in enumerate(self.lines):
+                    txt = l2
+                    if l2.startswith('#define'):
+                        m2 = re.match(r'#define \w+(\([^)]*\))?(.*)$', l2)
+                        txt = m2.group(2) if m2 else ''
+                    elif l2.startswith('#'):
+                        continue
+                    for u in re.finditer(r'\b%s\b' % re.escape(name), txt):
+                        if not re.match(r'\s*\(', txt[u.end():]):
+                            uses_ok = False
+                if not uses_ok:
+                    self.excl['D76'] = self.excl.get('D76', 0) + 1
+                    self.lines[i] = l.rstrip() + ' +'
         src = '\n'.join(self.lines) + '\n'
         # A '#' can see already-expanded material whenever some macro stringizes and some macro with parameters has a macro name in
         # its replacement list (directly or through any chain, an argument of the stringizing macro can then come from a parameter).
